@@ -65,11 +65,11 @@ def matrix(args):
         return 2
     path = os.path.join(SEEDED, "results.json")
     results = json.load(open(path)) if os.path.exists(path) else {}
-    for d in sorted(glob.glob(os.path.join(SEEDED, "C*-*"))):
+    for d in sorted(glob.glob(os.path.join(SEEDED, "*"))):
         sid = os.path.basename(d)
-        if ids and sid not in ids:
+        if not os.path.exists(os.path.join(d, "meta.json")) or (ids and sid not in ids):
             continue
-        target = sid.split("-")[0]
+        target = json.load(open(os.path.join(d, "meta.json")))["breaks_property"]
         props = sorted(set(claimed()) | {target}) if allp else [target]
         rc, out = sh(["git", "-C", "/repo", "apply", os.path.join(d, "patch.diff")])
         if rc != 0:
